@@ -106,3 +106,13 @@ Theorem generated_edit_distance_split_refines_model :
   ltac:(let t := type of edit_distance_join_split_rows_refines_proj in exact t).
 Proof. exact edit_distance_join_split_rows_refines_proj. Qed.
 Print Assumptions generated_edit_distance_split_refines_model.
+
+(* ---- tie: the remaining public wrappers as REGENERATED from the source on this run (Gen/WrapperGen.v,
+   Gen/FilterWrapperGen.v over Model/Frame.v): overlap_coefficient_join_py, edit_distance_join_py,
+   overlap_join_py and the filters' filter_tables compute header_spec + the rows of api_join (entry
+   EJoin / EFilter / EOverlapFilter) through the declared projection, per chunk up to order *)
+From SSJ Require Import Frame WrapperGen FilterWrapperGen WrapperBody WrapperApiLink WrapperEnd WrapperRefineOvc WrapperRefineEd FilterWrapperRefineOverlap FilterWrapperRefine FilterWrapperRefineClosed.
+Theorem generated_edit_distance_wrapper_refines_model :
+  ltac:(let t := type of edit_distance_join_rows_end_to_end_flat in exact t).
+Proof. exact edit_distance_join_rows_end_to_end_flat. Qed.
+Print Assumptions generated_edit_distance_wrapper_refines_model.
